@@ -16,7 +16,7 @@ pub fn property() -> Property {
     Property {
         id: "C06",
         level: "fault_enumeration",
-        rule: "Payloads (empty, 1 byte, text, incompressible, highly repetitive up to 1 MiB, > 64 KiB) are compressed by reference encoders (flate2 levels 0-9 => stored and dynamic blocks; hand-written encoder => stored and fixed-Huffman blocks; gzip headers with FNAME/FCOMMENT/FEXTRA/FHCRC) and served with coding declarations in any letter case, alone or in a list (members separated by blanks and/or horizontal tabs), under statuses 200/201/206/404/500 and the unfollowed 3xx codes 300/305/399, in Content-Encoding or Transfer-Encoding, under every framing, segmentation and read plan, for requests made with default settings, with allow_compression(false) on the request / session / prepared request, and with POST and DELETE (decoding depends only on what the response declares); unknown codings (br, identity, x-gzip, none) must pass through byte-for-byte; the Accept-Encoding field on the wire must be present iff compression is allowed. Faults: EVERY truncation offset of the compressed stream of 10 fixed streams (exhaustive; framing adjusted so that only the compression layer can notice - with Content-Length framing the REST of the compressed stream follows the frame on the connection and must not reach the decoder -, or left short), EVERY single-bit flip of the 8 gzip trailer bytes, bit flips in the deflate body (gzip: Err or identical payload); json()/json_utf8() against every trailer bit flip and every cut inside the trailer of a gzip-coded JSON document. Oracle: payload is ground truth; prefix rule after every read; damaged stream must end with Err. Non-trivial: compressed stream non-empty; distinct = hash(wire, fault, segmentation, plan).",
+        rule: "Payloads (empty, 1 byte, text, incompressible, highly repetitive up to 1 MiB, > 64 KiB) are compressed by reference encoders (flate2 levels 0-9 => stored and dynamic blocks; hand-written encoder => stored and fixed-Huffman blocks; gzip headers with FNAME/FCOMMENT/FEXTRA/FHCRC) and served with coding declarations in any letter case, alone or in a list (members separated by blanks and/or horizontal tabs), under statuses 200/201/206/404/500 and the unfollowed 3xx codes 300/305/399, in Content-Encoding or Transfer-Encoding, under every framing, segmentation and read plan, for requests made with default settings, with allow_compression(false) on the request / session / prepared request, and with POST and DELETE (decoding depends only on what the response declares); unknown codings (br, identity, x-gzip, none, and names that equal gzip/deflate only under Unicode case mapping) must pass through byte-for-byte; the Accept-Encoding field on the wire must be present iff compression is allowed. Faults: EVERY truncation offset of the compressed stream of 10 fixed streams (exhaustive; framing adjusted so that only the compression layer can notice - with Content-Length framing the REST of the compressed stream follows the frame on the connection and must not reach the decoder -, or left short), EVERY single-bit flip of the 8 gzip trailer bytes, bit flips in the deflate body (gzip: Err or identical payload); json()/json_utf8() against every trailer bit flip and every cut inside the trailer of a gzip-coded JSON document. Oracle: payload is ground truth; prefix rule after every read; damaged stream must end with Err. Non-trivial: compressed stream non-empty; distinct = hash(wire, fault, segmentation, plan).",
         assumptions: &["zlib-wrapped deflate and multi-member gzip are not generated (not fixed by the statement)", "flips inside a raw deflate body are not judged (no integrity check exists there)"],
         min_nontrivial: |t| t.pick(3_000, 60_000),
         gens,
@@ -399,8 +399,13 @@ fn run_passthrough(ctx: &mut Ctx, rng: &mut Rng, payload: Vec<u8>) {
     // a response declaring neither gzip nor deflate is passed through byte for byte, even if the
     // bytes happen to be a gzip stream
     let body = if rng.bool() { encode(rng, ctx, Coding::Gzip, &payload).stream } else { payload };
-    let headers: Vec<(String, Vec<u8>)> = match rng.below(5) {
+    let headers: Vec<(String, Vec<u8>)> = match rng.below(8) {
         0 => vec![],
+        // names that only become GZIP / DEFLATE under UNICODE case mapping (dotless i, fl ligature,
+        // long s): coding names are compared ASCII-case-insensitively, these are unknown codings
+        5 => vec![("Content-Encoding".into(), "gz\u{131}p".as_bytes().to_vec())],
+        6 => vec![("Content-Encoding".into(), "de\u{fb02}ate".as_bytes().to_vec())],
+        7 => vec![("Transfer-Encoding".into(), "gz\u{131}p".as_bytes().to_vec()), ("Content-Encoding".into(), "GZ\u{130}P, \u{ff47}zip".as_bytes().to_vec())],
         1 => vec![("Content-Encoding".into(), b"br".to_vec())],
         2 => vec![("Content-Encoding".into(), b"identity".to_vec())],
         3 => vec![("Content-Encoding".into(), b"x-gzip".to_vec())],
